@@ -452,6 +452,46 @@ def check_bonding_assets(ctx, model, v):
             ctx.ob("C18-bonding", "whale_lair::contract::instantiate|bonding_assets|native-only", ok,
                    "a Token element %s reach CONFIG.save" % ("cannot" if ok else "CAN"), v.where(b))
     if not found:
+        # the same rejection as a predicate: `if assets.iter().any(|a| matches!(a, Token{..})) { return Err }` (or all(native))
+        for b, c, edges in switch_conds(v):
+            if c.kind != "call" or not re.search(r"as std::iter::Iterator>::(any|all)$", c.callee) or len(c.term["args"]) != 2:
+                continue
+            which = "any" if c.callee.endswith("::any") else "all"
+            for o in v.origins_of_operand(c.term["args"][1], at=v.at_term(c.block)):
+                if o.kind != "closure" or o.a not in model.fnsrc:
+                    continue
+                cv = model.view(o.a)
+                for cb_, cc, _e in switch_conds(cv):
+                    if cc.kind != "discr" or not (cc.enum or "").endswith("pool_network::asset::AssetInfo"):
+                        continue
+                    inv = {name: val for val, name in cc.variants.items()}
+                    t = cv.blocks[cb_]["t"]
+                    tok_t = [tgt for val, tgt in t["targets"] if val == inv.get("Token")] or [t["otherwise"]]
+                    oth = [(cb_, tgt) for val, tgt in cv.edges_from(cb_) if tgt not in tok_t]
+                    reach = set()
+                    for tt in tok_t:
+                        reach |= cv.reachable(tt, cut_edges=oth)
+                    vals = {str(s_["rv"]["op"].get("val")) for bb_, i_, s_ in cv.iter_stmts()
+                            if bb_ in reach and s_["lhs"]["l"] == 0 and s_["rv"]["r"] == "use" and s_["rv"]["op"]["k"] == "const"}
+                    token_gives = None if len(vals) != 1 else (next(iter(vals)) in ("1", "true"))
+                    if token_gives is None:
+                        continue
+                    # any(is token) true, or all(is native) false, means a Token element exists: that edge must not reach the save
+                    te, fe = cmp_true_false_edges(v, b, c)
+                    if which == "any" and token_gives:
+                        bad_edges = te
+                    elif which == "all" and not token_gives:
+                        bad_edges = fe
+                    else:
+                        continue
+                    reach2 = set()
+                    for (_, tgt) in bad_edges:
+                        reach2 |= v.reachable(tgt)
+                    ok = bool(bad_edges) and not any(sb in reach2 for sb, _ in saves)
+                    found = True
+                    ctx.ob("C18-bonding", "whale_lair::contract::instantiate|bonding_assets|native-only", ok,
+                           "a Token element %s reach CONFIG.save" % ("cannot" if ok else "CAN"), v.where(b))
+    if not found:
         ctx.ob("C18-bonding", "whale_lair::contract::instantiate|bonding_assets|native-only", False,
                "no test of the bonding assets' kind found", v.where())
 
